@@ -31,6 +31,7 @@ TEMPLATES = {
     'intoiter': ('intoiter.vtmpl', 'src/collections/vec.rs'),
     'dedup': ('dedup.vtmpl', 'src/collections/vec.rs'),
     'vecops': ('vecops.vtmpl', 'src/collections/vec.rs'),
+    'strops': ('strops.vtmpl', 'src/collections/string.rs'),
 }
 
 
@@ -108,7 +109,7 @@ def run_unit(unit, repo, outdir):
     with open(os.path.join(outdir, unit + '.bodies.txt'), 'w') as fh:
         for f in g.functions:
             fh.write('==== %s  (%s:%d-%d) rules=%s\n---- real\n%s\n---- rewritten\n%s\n\n' % (
-                f['name'], src, f['src_line'], f['src_end_line'], sorted(f['rules']), f['real_body'], f['rewritten']))
+                f['name'], f.get('src_file') or src, f['src_line'], f['src_end_line'], sorted(f['rules']), f['real_body'], f['rewritten']))
 
     from concurrent.futures import ThreadPoolExecutor
     with ThreadPoolExecutor(2) as ex:
@@ -163,7 +164,7 @@ def run_unit(unit, repo, outdir):
             # failure outside any contracted function: prelude lemma / spec lemma
             ob = {'id': 'lemma@gen_line%s' % prim, 'props': ['*']}
         failures.append({'obligation': ob['id'], 'props': ob['props'], 'function': f['name'] if f else None,
-                         'src': ('%s:%d-%d' % (src, f['src_line'], f['src_end_line'])) if f else None,
+                         'src': ('%s:%d-%d' % (f.get('src_file') or src, f['src_line'], f['src_end_line'])) if f else None,
                          'kind': msg, 'gen_line': prim,
                          'gen_text': gen_lines[prim - 1].strip() if prim else '', 'verus_output': '\n'.join(b['text'])})
     if undecided:
@@ -191,7 +192,7 @@ def run_unit(unit, repo, outdir):
         'unit': unit, 'generated_file': path, 'checker_cmd': main['cmd'],
         'verified': vr.get('verified'), 'errors': vr.get('errors'),
         'failures': failures,
-        'functions': [{k: f[k] for k in ('name', 'src', 'src_line', 'src_end_line', 'sha256', 'props', 'rules')} for f in g.functions],
+        'functions': [{k: f.get(k) for k in ('name', 'src', 'src_file', 'src_line', 'src_end_line', 'sha256', 'props', 'rules')} for f in g.functions],
         'trusted_functions': g.trusted_fns,
         'obligations': g.obligations,
         'rule_log': g.rule_log, 'consts': g.consts,
